@@ -1652,6 +1652,30 @@ Section Histories.
     - cbn in Hok. subst stale. cbn [do_step]. destruct (dep_pass hash fault slices sliceaware false w) as [[w' evs] r] eqn:Ep. eapply inv_dep_pass; eauto.
   Qed.
 
+  (** Revision numbers: never changed by the deployment controller; by the ObjectSet side only from 0 to a number
+      greater than the revision of every other ObjectSet of the deployment. *)
+  Theorem revisions_of_step w s x x' :
+    Inv w -> ok_step s -> In x (dw_sets w) -> In x' (dw_sets (do_step hash slices sliceaware w s)) -> sname x' = sname x ->
+    srev x' = srev x \/
+    (srev x = 0%Z /\ srev x' <> 0%Z /\
+     (ds_sel x = true -> forall b, In b (dw_sets w) -> ds_sel b = true -> sname b <> sname x -> (srev b < srev x')%Z)) \/
+    (exists stale f, s = SDep stale f /\ srev x' = 0%Z).
+  Proof.
+    intros HI Hok Hx Hx' Hn. pose proof (i_nodup _ HI) as U1.
+    destruct s as [dg phs|b|l|stale fault|force n|n|n cs co coset|n|k a];
+      try (destruct (do_step_oset w _ HI Hok) as ((_ & Hold & _) & _); [intros; discriminate|];
+           destruct (Hold x' Hx') as (x0 & Hx0 & N0 & _ & _ & _ & _ & R0);
+           assert (x0 = x) by (apply (NoDup_map_eq sname (dw_sets w)); auto; congruence); subst x0;
+           destruct R0 as [R0|(R00 & R0n & R0b)]; [left; exact R0|right; left; split; [assumption|]; split; [assumption|];
+             intros Hsel bb Hb Hsb Hne; apply R0b; [assumption|]; apply (i_zero _ HI x bb); auto]).
+    - cbn in Hok. subst stale. cbn [do_step] in Hx'. destruct (dep_pass hash fault slices sliceaware false w) as [[w' evs] r] eqn:Ep.
+      destruct (dep_pass_frame _ _ _ _ _ _ _ _ _ Ep) as (_ & Hold & _).
+      destruct (Hold x' Hx') as [(x0 & Hx0 & E0)|(rr & _ & _ & R0 & _)].
+      + assert (E' : sname x' = sname x0 /\ srev x' = srev x0) by (unfold sid in E0; injection E0; auto). destruct E' as (N0 & R0).
+        assert (x0 = x) by (apply (NoDup_map_eq sname (dw_sets w)); auto; congruence). subst x0. left. exact R0.
+      + right. right. exists false, fault. auto.
+  Qed.
+
   Theorem inv_run h : forall w, Inv w -> Forall ok_step h -> Inv (run hash slices sliceaware w h).
   Proof.
     induction h as [|s r IH]; cbn; intros w HI HF; [assumption|]. inversion HF; subst. apply IH; [now apply inv_step|assumption].
@@ -2123,4 +2147,141 @@ Section NoFault.
         rewrite bump_cc_neq. now rewrite !andb_false_r. }
     exists c1. split; [|assumption]. cbn [with_fresh dw_sets]. rewrite Hs4. now apply find_dset_some in Hf1.
   Qed.
+
+  (** C08: one round of history pruning deletes exactly the first max(0, |previous| - limit) previous revisions,
+      oldest first. *)
+  Lemma fold_del_exact : forall names st, p_dead st = false ->
+    p_dead (fold_left (del_req fault) names st) = false /\
+    exists es, p_evs (fold_left (del_req fault) names st) = p_evs st ++ es /\
+               Forall2 (fun n e => exists dr, e = DDelete n dr /\ (dr = DlOk \/ dr = DlNotFound)) names es.
+  Proof.
+    induction names as [|n r IH]; cbn; intros st Hal; [split; [assumption|]; exists []; split; [now rewrite app_nil_r|constructor]|].
+    assert (H1 : p_dead (del_req fault st n) = false /\ exists dr, p_evs (del_req fault st n) = p_evs st ++ [DDelete n dr] /\ (dr = DlOk \/ dr = DlNotFound)).
+    { unfold del_req. rewrite Hal. cbn [fault_now fault]. destruct (find_dset _ _); cbn; split; auto; eexists; split; eauto. }
+    destruct H1 as (Hal1 & dr & He1 & Hdr). destruct (IH _ Hal1) as (Hal2 & es & He2 & HF).
+    split; [assumption|]. exists (DDelete n dr :: es). split; [rewrite He2, He1, <- app_assoc; reflexivity|].
+    constructor; [exists dr; auto|assumption].
+  Qed.
+
+  Theorem gc_exact st d prevnames : p_dead st = false ->
+    exists es, p_evs (gc fault st d prevnames) = p_evs st ++ es /\
+      Forall2 (fun n e => exists dr, e = DDelete n dr /\ (dr = DlOk \/ dr = DlNotFound))
+              (firstn (Z.to_nat (Z.of_nat (length prevnames) - match d_limit d with Some l => l | None => 10 end)) prevnames) es.
+  Proof. intros Hal. unfold gc. destruct (fold_del_exact (firstn (gc_count d (length prevnames)) prevnames) st Hal) as (_ & es & He & HF). exists es. auto. Qed.
 End NoFault.
+
+(** * Part 7: witnesses (concrete worlds, evaluated by the kernel) *)
+Section Witness.
+  Definition wit_hash (d : N) (c : option N) : N := d * 100 + match c with None => 0 | Some n => n end.
+  Definition no_slices : N -> option (list pobj) := fun _ => None.
+
+  Definition wit_pobj (gk name : N) : pobj :=
+    {| po_gk := gk; po_ns := 0; po_name := name; po_body := 1; po_cp := CPPrevent; po_ownerrefs := false; po_dryreject := false |}.
+  Definition wit_phase (objs : list pobj) : phase := {| ph_name := 1; ph_class := false; ph_objects := objs |}.
+  Definition wit_key (name : N) : okey := {| k_gk := 1; k_ns := 1; k_name := name |}.
+
+  Definition wit_dep (dg : N) (phs : list phase) (limit : option Z) : depl :=
+    {| d_id := {| oi_kind := KObjectDeployment; oi_ns := 1; oi_name := 5; oi_uid := 500 |}; d_rv := 3; d_gen := 1; d_paused := false;
+       d_digest := dg; d_phases := phs; d_limit := limit; d_hash := 0; d_cc := None; d_conds := []; d_revision := 0; d_ctrlof := [] |}.
+
+  Definition wit_set (name uid : N) (rev : Z) (phs : list phase) (prev : list N) (life : lifecycle) (conds : list cond) (ctrlof : list okey) : dset :=
+    {| ds_set := {| os_id := {| oi_kind := KObjectSet; oi_ns := 1; oi_name := name; oi_uid := uid |}; os_rv := 5; os_gen := 1;
+                    os_deleting := false; os_fin := true; os_orphan := false; os_pkg := 0; os_life := life; os_phases := phs;
+                    os_prev := prev; os_revision := rev; os_conds := conds; os_ctrlof := ctrlof; os_remotes := [] |};
+       ds_hash := Some name; ds_pbp := false; ds_sel := true; ds_ctrl := 500; ds_ctrlset := false |}.
+
+  Definition wit_world (d : depl) (sets : list dset) : dworld :=
+    {| dw_dep := d; dw_sets := sets; dw_w := {| w_store := []; w_rv := 50; w_uid := 60 |}; dw_fresh := None |}.
+
+  Definition c_avail : cond := {| cd_type := CAvailable; cd_status := STrue; cd_reason := RAvailable; cd_gen := 1 |}.
+  Definition c_paused : cond := {| cd_type := CPaused; cd_status := STrue; cd_reason := RPaused; cd_gen := 1 |}.
+
+  (** template 1 = {ConfigMap n1}, template 3 = {ConfigMap n3}; an earlier revision for template 2 exists. *)
+  Definition tmpl1 : list phase := [wit_phase [wit_pobj 1 1]].
+  Definition tmpl3 : list phase := [wit_phase [wit_pobj 1 3]].
+  Definition wit_old : dset := wit_set 200 101 1 [wit_phase [wit_pobj 1 2]] [] LActive [c_avail] [wit_key 2].
+  Definition wit_w0 : dworld := wit_world (wit_dep 1 tmpl1 None) [wit_old].
+
+  Lemma wit_w0_inv : Inv wit_w0.
+  Proof.
+    constructor; cbn.
+    - constructor; [intros []|constructor].
+    - intros a b [<-|[]] [<-|[]] _ _ H. now elim H.
+    - intros a b [<-|[]] [<-|[]] _ _ H. now elim H.
+  Qed.
+
+  (** F-C07: the create is not yet listed, the ObjectSet has not reported its revision, the Get sees it:
+      treated as a hash collision; after the ObjectSet reported its revision a second ObjectSet is created for
+      the unchanged template. *)
+  Definition wit_stale_history : list step :=
+    [SDep false None; SDep true None; SRev 100; SDep false None].
+
+  Lemma wit_two_creates :
+    count_creates wit_hash no_slices false wit_w0 wit_stale_history = 2%nat /\
+    count_changes wit_hash no_slices false wit_w0 wit_stale_history = 0%nat /\
+    map (fun s => (sname s, srev s, phases_eqb (os_phases (ds_set s)) tmpl1)) (dw_sets (run wit_hash no_slices false wit_w0 wit_stale_history)) =
+      [(200, 1%Z, false); (100, 2%Z, true); (101, 0%Z, true)].
+  Proof. vm_compute. repeat split. Qed.
+
+  (** Without the stale List the same schedule creates one ObjectSet. *)
+  Lemma wit_fresh_one_create :
+    count_creates wit_hash no_slices false wit_w0 [SDep false None; SDep false None; SRev 100; SDep false None] = 1%nat.
+  Proof. vm_compute. reflexivity. Qed.
+
+  (** The template is edited while the created ObjectSet is not yet listed: two ObjectSets with the same
+      previous list, hence the same revision number. *)
+  Definition wit_edit_history : list step :=
+    [SDep false None; SEdit 3 tmpl3; SDep true None; SRev 100; SRev 300].
+
+  Lemma wit_same_revision :
+    map (fun s => (sname s, srev s, os_prev (ds_set s))) (dw_sets (run wit_hash no_slices false wit_w0 wit_edit_history)) =
+      [(200, 1%Z, []); (100, 2%Z, [200]); (300, 2%Z, [200])].
+  Proof. vm_compute. reflexivity. Qed.
+
+  (** Rollback 1 -> 2 -> 1: the old revision for template 1 holds the name; collision bump; a new revision. *)
+  Definition wit_rollback_world : dworld :=
+    wit_world (wit_dep 1 tmpl1 None)
+      [wit_set 100 101 1 tmpl1 [] LActive [c_avail] [wit_key 1]; wit_set 200 102 2 [wit_phase [wit_pobj 1 2]] [100] LActive [c_avail] [wit_key 2]].
+
+  Lemma wit_rollback :
+    map (fun s => (sname s, srev s, phases_eqb (os_phases (ds_set s)) tmpl1, os_prev (ds_set s)))
+        (dw_sets (run wit_hash no_slices false wit_rollback_world [SDep false None; SDep false None; SRev 101])) =
+      [(100, 1%Z, true, []); (200, 2%Z, false, [100]); (101, 3%Z, true, [100; 200])] /\
+    d_cc (dw_dep (run wit_hash no_slices false wit_rollback_world [SDep false None])) = Some 1.
+  Proof. vm_compute. split; reflexivity. Qed.
+
+  (** C08 with ObjectSlices (second half of F-C14): revision 1 (unavailable, confirmed paused) controls ConfigMap
+      n1; revision 2 keeps ConfigMap n1 in ObjectSlice 7. The getter as it is sees no objects in revision 2. *)
+  Definition wit_slices : N -> option (list pobj) := fun n => if n =? 7 then Some [wit_pobj 1 1] else None.
+  Definition wit_r1 : dset := wit_set 300 101 1 tmpl1 [] LPaused [c_paused] [wit_key 1].
+  Definition wit_r2 : dset := wit_set 100 102 2 [wit_phase [wit_pobj KSliceRef 7]] [300] LActive [] [].
+  Definition wit_sliced_world : dworld := wit_world (wit_dep 1 [wit_phase [wit_pobj KSliceRef 7]] None) [wit_r1; wit_r2].
+
+  Lemma wit_sliced_archive :
+    let '(_, evs, _) := dep_pass wit_hash None wit_slices false false wit_sliced_world in
+    existsb (fun e => match e with DUpdate 300 LArchived _ WOk => true | _ => false end) evs = true /\
+    listed false wit_sliced_world = [wit_r1; wit_r2] /\
+    existsb (okey_eqb (wit_key 1)) (os_ctrlof (ds_set wit_r1)) = true /\
+    existsb (okey_eqb (wit_key 1)) (full_objects wit_slices wit_r2) = true /\
+    set_objects wit_r2 = [] /\ is_available wit_r2 = false.
+  Proof. vm_compute. repeat split. Qed.
+
+  Lemma wit_sliced_archive_repaired :
+    let '(_, evs, _) := dep_pass wit_hash None wit_slices true false wit_sliced_world in
+    existsb (fun e => match e with DUpdate _ LArchived _ _ => true | _ => false end) evs = false.
+  Proof. vm_compute. reflexivity. Qed.
+
+  (** Observation: history pruning counts all previous revisions, archived or not, and deletes the oldest ones:
+      with limit 1, archiving the broken revision 2 deletes revision 1, which is Available and not archived. *)
+  Definition wit_gc_world : dworld :=
+    wit_world (wit_dep 3 tmpl3 (Some 1%Z))
+      [wit_set 100 101 1 tmpl1 [] LActive [c_avail] [wit_key 1];
+       wit_set 200 102 2 [wit_phase [wit_pobj 1 2]] [100] LPaused [c_paused] [wit_key 2];
+       wit_set 300 103 3 tmpl3 [100; 200] LActive [] []].
+
+  Lemma wit_gc_deletes_available :
+    let '(_, evs, _) := dep_pass wit_hash None no_slices false false wit_gc_world in
+    existsb (fun e => match e with DDelete 100 DlOk => true | _ => false end) evs = true /\
+    existsb (fun e => match e with DUpdate 200 LArchived _ WOk => true | _ => false end) evs = true.
+  Proof. vm_compute. split; reflexivity. Qed.
+End Witness.
